@@ -144,3 +144,64 @@ Proof.
   assert (Hd : all_digits (n_int n ++ frac_digits n) = true) by now rewrite all_digits_app, H2, H1.
   rewrite (digits_Z_pos _ Hd). reflexivity.
 Qed.
+
+(* ---- float() accepts every normalised density of a well-formed number ---- *)
+(* so constructCompositionT4's float(normalize_float(density)) cannot raise
+   ValueError on the density of a cell card that spells a number *)
+Theorem float_ok_normal_form n : wf_number n = true -> float_ok (normal_form n) = true.
+Proof.
+  unfold wf_number. intros W.
+  repeat (apply andb_true_iff in W; destruct W as [W ?]).
+  rename H into Hexp, H0 into Hdig, H1 into Hfd, H2 into Hid. rename W into Hsg.
+  set (g := match n_frac n with
+            | Some f => match n_exp n with None => canon_frac f | Some _ => keep_frac (n_int n) f end
+            | None => "" end).
+  set (fr := match n_frac n with Some _ => "." ++ g | None => "" end).
+  set (ex := match n_exp n with Some (es, ed) => "e" ++ es ++ ed | None => "" end).
+  assert (NF : normal_form n = n_sign n ++ n_int n ++ fr ++ ex).
+  { unfold normal_form, fr, g, ex. destruct (n_exp n) as [[es ed]|], (n_frac n) as [f|];
+      rewrite ?sapp_nil_r, ?sapp_assoc; reflexivity. }
+  assert (Hg : all_digits g = true).
+  { unfold g, frac_digits in *. destruct (n_frac n) as [f|]; [|reflexivity].
+    destruct (n_exp n); [now apply all_digits_keep | now apply all_digits_canon]. }
+  assert (Hne : (nonempty (n_int n) || nonempty g) = true).
+  { unfold g, frac_digits in *. destruct (n_frac n) as [f|].
+    - destruct (n_exp n).
+      + unfold keep_frac. destruct (nonempty (n_int n)) eqn:Ei; [reflexivity|].
+        unfold canon_frac. destruct (rstrip0 f); reflexivity.
+      + unfold canon_frac. destruct (rstrip0 f); now rewrite orb_true_r.
+    - simpl in Hdig. now rewrite orb_false_r in *. }
+  assert (Hex : nd_head ex = true /\ match ex with String "."%char _ => False | _ => True end /\
+                match ex with
+                | EmptyString => true
+                | String c r => (Ascii.eqb c "e" || Ascii.eqb c "E") &&
+                                (let r' := strip_sign r in nonempty r' && all_digits r')
+                end = true).
+  { unfold ex. destruct (n_exp n) as [[es ed]|]; [|repeat split; reflexivity].
+    apply andb_true_iff in Hexp. destruct Hexp as [Hexp Hed].
+    apply andb_true_iff in Hexp. destruct Hexp as [Hes Hned].
+    assert (Hnsd : ns_head ed = true).
+    { rewrite <- (sapp_nil_r ed). apply ns_head_digits_app; auto. }
+    repeat split; try reflexivity. simpl.
+    now rewrite (strip_sign_app _ _ Hes Hnsd), Hned, Hed. }
+  destruct Hex as [Hx1 [Hx2 Hx3]].
+  rewrite NF. unfold float_ok.
+  assert (Hns : ns_head (n_int n ++ fr ++ ex) = true).
+  { apply ns_head_digits_app; [exact Hid|]. unfold fr, g, frac_digits in *.
+    destruct (n_frac n) as [f|]; [right; reflexivity|]. left. simpl in Hdig. now rewrite orb_false_r in Hdig. }
+  rewrite (strip_sign_app _ _ Hsg Hns).
+  assert (Hnd : nd_head (fr ++ ex) = true).
+  { unfold fr. destruct (n_frac n); [reflexivity | exact Hx1]. }
+  rewrite (span_digits_app (n_int n) (fr ++ ex) Hid Hnd).
+  unfold fr. destruct (n_frac n) as [f|] eqn:Ef.
+  - change (("." ++ g) ++ ex) with (String "." (g ++ ex)). cbv iota beta.
+    rewrite (span_digits_app g ex Hg Hx1), Hne. exact Hx3.
+  - change ("" ++ ex) with ex.
+    assert (Hgn : g = "") by (unfold g; try rewrite Ef; reflexivity). rewrite Hgn in Hne.
+    destruct ex as [|c r]; [now rewrite Hne|].
+    destruct (Ascii.eqb c ".") eqn:Ec; [apply Ascii.eqb_eq in Ec; subst c; now elim Hx2|].
+    replace (match String c r with String "."%char r0 => span_digits r0 | _ => ("", String c r) end)
+      with ("", String c r)
+      by (destruct c as [[] [] [] [] [] [] [] []]; try reflexivity; discriminate Ec).
+    rewrite Hne. exact Hx3.
+Qed.
